@@ -348,6 +348,40 @@ def run_c03(run: core.Run, n: int) -> None:
     if run.first:
         run_d4a(run, "C03", stats)
         run_g3(run, "C03", stats)
+    # exhaustive over the single-layer pools: every ordered pair of atoms / grouped atoms on one variable joined by
+    # `and` and by `or` in ONE text, so that parse_marker's own folding meets every pair (seed C03d: a `!=` group and an
+    # `in` atom it only partly excludes, inside one conjunction)
+    base = {"os_name": "posix", "sys_platform": "linux", "platform_machine": "x86_64", "platform_system": "Linux",
+            "platform_release": "5.10", "implementation_name": "cpython", "platform_python_implementation": "CPython",
+            "python_version": "3.9", "python_full_version": "3.9.1", "extra": "", "implementation_version": "3.9.1",
+            "platform_version": "#1"}
+    idx = 0
+    for var, pool, penvs in single_layer_pools(run.tier):
+        penvs = [dict(base, **e) for e in penvs]
+        par = lambda t: f"({t})" if (" and " in t or " or " in t) else t  # noqa: E731
+        for a, b in itertools.product(pool, pool):
+            idx += 1
+            if not run.mine(idx):
+                continue
+            for glue in (" and ", " or "):
+                text = par(a) + glue + par(b)
+                try:
+                    m, pm = mk.parse_marker(text), PkgMarker(text)
+                except Exception as ex:  # noqa: BLE001
+                    run.fail(core.Failure("parse|" + text, f"parse_marker({text!r}) raised {type(ex).__name__}", {"op": "parse", "text": text}))
+                    continue
+                for env in penvs:
+                    stats["oracle"] += 1
+                    want, got = pm.evaluate(env), ev(m, env)
+                    if got != want:
+                        f = core.Failure("eval|" + text + "|" + enc_env(env), f"parse_marker({text!r}).evaluate = {got}, packaging says {want}",
+                                         {"op": "eval", "text": text, "env": {k: (sorted(v) if isinstance(v, set) else v) for k, v in env.items()}})
+                        fam = mk.known_family([text], env)
+                        if fam:
+                            f.family = fam
+                        run.fail(f)
+                        if not fam:
+                            break
     for _ in range(n):
         text = mk.marker_text(rng, rng.choice([0, 1, 2, 3]))
         envs = mk.envs_for([text], rng, 10)
@@ -566,6 +600,15 @@ def complement_exprs(rng):
            E("or", L(f"({a} and {s_}) or ({na} and {t_})"), E("empty")),
            E("and", L(f"({a} or {s_}) and ({na} or {t_})"), E("any")),
            E("exclude", L(f'({a} and {s_} and extra == "x") or ({na} and {s_})'), "extra"),
+           # `A | (X1&X2 or X1&C or B&X2)` with B & C empty: union() answers in CNF, `(X1 or A or B) and (X2 or A or C)`;
+           # excluding X's variable leaves `(A or B) and (A or C)`, which MultiMarker.of re-normalises through
+           # intersect_simplify's "shared part only" branch (seed C15d); and the dual through union_simplify
+           E("exclude", E("or", L(s_), L(f'(python_version < "3.9" and python_version >= "3.7") or (python_version < "3.9" and os_name == "zc") '
+                                          f'or (os_name == "zb" and python_version >= "3.7")')), "python_version"),
+           E("only", E("or", L(s_), L(f'(python_version < "3.9" and python_version >= "3.7") or (python_version < "3.9" and os_name == "zc") '
+                                       f'or (os_name == "zb" and python_version >= "3.7")')), ("os_name",) + tuple(sorted(variables(mk.parse_marker(s_))))),
+           E("exclude", E("and", L(s_), L(f'(python_version < "3.7" or python_version >= "3.9") and (python_version < "3.7" or os_name != "zc") '
+                                           f'and (os_name == "zc" or python_version >= "3.9")')), "python_version"),
            E("only", L(f'({a} and {s_} and os_name == "zz") or ({na} and {s_})'), tuple(sorted(variables(mk.parse_marker(f"{a} and {na} and {s_}")))))]
     return out
 
